@@ -710,7 +710,107 @@ def rule_str_widths_per_character(ctx: Ctx) -> RuleResult:
             rr.add(finding("SIB", fi, r.ast, f"`{norm(r.ast, 50)}` answers for str text with the number of characters: control characters (TAB, ESC, CR - width 0 in urwid's table) and wide characters are miscounted, while calc_text_pos() still adds get_char_width() per character - the layout's two helpers disagree (spurious blank rows, IndexError in the space wrap)", construct="str width taken as character count"))
         if on_str and not plain and not any(isinstance(c, ast.Call) and callee_name(c) in ("get_char_width", "get_width") for c in ast.walk(r.ast.value)):
             rr.add(finding("SIB", fi, r.ast, f"`{norm(r.ast, 50)}` answers for str text without consulting get_char_width()", construct="str width not per character"))
+        if plain and not on_str:
+            # bytes: the difference is right for the narrow / wide modes only.  Under utf8 it is reached either not at
+            # all (a pure `_byte_encoding == "utf8"` test left on its false edge) or for text that a conjoined regex
+            # predicate shows to consist of one-column printable ASCII *exactly* - `$` also matches before a final
+            # newline (width 0), only \Z / fullmatch() do not (seed C11-r8a)
+            ok, why = False, "no test of the byte mode on the way"
+            for t in cfg.nodes:
+                if t.kind != "test" or r in ExcEngine._reach_without_edge(cfg, t, "F"):
+                    continue
+                conj = t.ast.values if isinstance(t.ast, ast.BoolOp) and isinstance(t.ast.op, ast.And) else [t.ast]
+                mode = [c for c in conj if isinstance(c, ast.Compare) and len(c.ops) == 1 and isinstance(c.ops[0], ast.Eq) and "_byte_encoding" in ast.unparse(c.left) and isinstance(c.comparators[0], ast.Constant) and c.comparators[0].value == "utf8"]
+                if not mode:
+                    continue
+                extras = [c for c in conj if c not in mode]
+                if not extras:
+                    ok, why = True, "pure byte-mode test"
+                    break
+                bad = [c for c in extras if not _exact_printable_predicate(p, fi, c)]
+                ok, why = (not bad), ("conjoined predicates are exact printable-ASCII tests" if not bad else f"`{norm(bad[0], 50)}` does not show the text to be printable ASCII only")
+                break
+            rr.inst(f"bytes:{norm(r.ast, 40)}", True, {"return": norm(r.ast, 60), "reached_under_utf8": why})
+            if not ok:
+                rr.add(finding("SIB", fi, r.ast, f"`{norm(r.ast, 50)}` (one column per byte) can be reached in the utf8 byte mode: {why} - a control byte or a multi-byte character is counted one column per byte while calc_text_pos() uses the width table (b'abc\\n': width 4 here, 3 there)", construct="byte count as width reachable under utf8"))
     return rr
+
+
+def rule_one_width_source(ctx: Ctx) -> RuleResult:
+    """'offset stepping, column search and width agree': they agree because every one of them takes a character's
+    width from the same table, get_char_width() (get_width() for code points).  A second source - unicodedata's
+    east_asian_width(), wcwidth called directly, str.isprintable() - agrees for common text and differs for hundreds
+    of code points (regional indicators, hexagram symbols, combining CJK marks; seed C11-r8b put one into
+    is_wide_char()).  (a) in the text-measuring modules only get_char_width() itself consults wcwidth, and nothing
+    consults unicodedata; (b) every `== 2` / `== 0` width decision of is_wide_char compares a get_char_width() /
+    get_width() result."""
+    p = ctx.p
+    rr = RuleResult("SIB", "C11.22", "a character's width is taken from get_char_width() / get_width() only: no second width source in the measuring modules", floor=4)
+    foreign = {"east_asian_width", "wcswidth", "wcwidth", "combining", "category"}
+    for fi in p.functions.values():
+        if fi.module.name not in ("urwid.str_util", "urwid.util", "urwid.text_layout", "urwid.canvas") or fi.is_lambda:
+            continue
+        for c in fi.own_nodes():
+            if isinstance(c, ast.Call) and isinstance(c.func, ast.Attribute) and c.func.attr in foreign and isinstance(c.func.value, ast.Name) and c.func.value.id in ("unicodedata", "wcwidth"):
+                owner = fi.name == "get_char_width"
+                rr.inst(f"{short(fi)}: {norm(c, 40)}", True, {"call": f"{short(fi)}: {norm(c, 50)}", "inside_the_width_table_function": owner})
+                if not owner:
+                    rr.add(finding("SIB", fi, c, f"`{norm(c, 50)}` is a second source of character widths next to get_char_width(): the two agree on common text and differ on hundreds of code points (U+1F1E6.., U+4DC0.., U+302A..), so this function disagrees with calc_width() / calc_text_pos() about the same character", construct=f"{fi.name}: width from {c.func.value.id}.{c.func.attr}"))
+    iw = p.func(f"{SU}.is_wide_char")
+    for r in [n for n in iw.own_nodes() if isinstance(n, ast.Return) and isinstance(n.value, ast.Compare)]:
+        src = [callee_name(x) for x in ast.walk(r.value) if isinstance(x, ast.Call)]
+        if not src:
+            # a local compared: where does it come from?
+            du = DefUse(iw)
+            at = du.node_of(r)
+            src = [callee_name(x) for x in ast.walk(du.expand(r.value, at)) if isinstance(x, ast.Call)] if at is not None else []
+        ok = any(s_ in ("get_char_width", "get_width", "within_double_byte") for s_ in src)
+        rr.inst(f"is_wide_char: {norm(r, 50)}", True, {"return": norm(r, 60), "width_from": src})
+        if not ok:
+            rr.add(finding("SIB", iw, r, f"`{norm(r, 60)}` decides 'wide' without get_char_width() / get_width(): it can disagree with the width calc_width() reports for the same character", construct="is_wide_char: width not from the table"))
+    return rr
+
+
+def _exact_printable_predicate(p, fi, c) -> bool:
+    """`not RE.match(x)` / `not RE.fullmatch(x)` (we are on the false edge of the conjunction, i.e. the predicate held)
+    where RE is a module constant whose pattern accepts nothing but bytes 0x20..0x7e to the very end"""
+    import re._parser as rp
+
+    if not (isinstance(c, ast.UnaryOp) and isinstance(c.op, ast.Not) and isinstance(c.operand, ast.Call) and isinstance(c.operand.func, ast.Attribute) and isinstance(c.operand.func.value, ast.Name)):
+        return False
+    meth, name = c.operand.func.attr, c.operand.func.value.id
+    b = fi.module.bindings.get(name)
+    if meth not in ("match", "fullmatch") or b is None or b[0] != "assign" or not (isinstance(b[1], ast.Call) and callee_name(b[1]) == "compile" and b[1].args and isinstance(b[1].args[0], ast.Constant)):
+        return False
+    pat = b[1].args[0].value
+    try:
+        tree = list(rp.parse(pat))
+    except Exception:
+        return False
+    ops = [str(op) for op, _a in tree]
+    if ops and ops[0] == "AT" and str(tree[0][1]) in ("AT_BEGINNING", "AT_BEGINNING_STRING"):
+        tree = tree[1:]
+    end_exact = meth == "fullmatch"
+    if tree and str(tree[-1][0]) == "AT":
+        if str(tree[-1][1]) == "AT_END_STRING":
+            end_exact = True
+        tree = tree[:-1]
+    if not end_exact or len(tree) != 1 or str(tree[0][0]) not in ("MAX_REPEAT", "MIN_REPEAT"):
+        return False
+    _lo, _hi, sub = tree[0][1]
+    sub = list(sub)
+    if len(sub) != 1 or str(sub[0][0]) != "IN":
+        return False
+    for op, a in sub[0][1]:
+        if str(op) == "RANGE":
+            if not (0x20 <= a[0] and a[1] <= 0x7E):
+                return False
+        elif str(op) == "LITERAL":
+            if not 0x20 <= a <= 0x7E:
+                return False
+        else:
+            return False
+    return True
 
 
 # the DEC Special Graphics set (VT100 line drawing) as the terminal standards define it: the character a terminal
@@ -813,6 +913,7 @@ def run(ctx: Ctx):
         pairlen.run_pairlen(p, "C11.13", ["urwid.util.apply_target_encoding"], floor=4),
         rule_step_in_range(ctx),
         rule_utf8_scan_range(ctx),
+        rule_one_width_source(ctx),
         rule_memo_globals(ctx),
         rule_dbe_consulted(ctx),
         rule_one_decoder(ctx),
